@@ -1,6 +1,6 @@
 (* Non-vacuity for C15: concrete numerals meet the hypotheses of the theorems and the model gives the expected forms. *)
 From Coq Require Import List NArith ZArith Bool Lia.
-From SudachiVerif Require Import Model.Numeric Proofs.NumericProofs.
+From SudachiVerif Require Import Model.Numeric Model.NumericRef Proofs.NumericProofs Proofs.NumericRefProofs Proofs.NumericGrouped.
 Import ListNotations.
 Open Scope N_scope.
 
@@ -49,3 +49,25 @@ Example obs_repeated_large_unit : parse gen_cfg [30334;19975;51;19975] = (true, 
 Proof. vm_compute. reflexivity. Qed.
 Example obs_comma_in_fraction : parse gen_cfg [49;46;53;44;48;48;48] = (true, 0, [49;46;53]).                 (* 1.5,000 -> 1.5 *)
 Proof. vm_compute. reflexivity. Qed.
+
+(* the reference evaluator on the largest example of the Rust unit tests: value 3200013270014.05, room 0 *)
+Example ex_reference_value :
+  r_parse gen_cfg [19977;20806;50;21315;20740;21315;19977;30334;20108;21313;19971;19975;19968;22235;46;12295;20116]
+  = (true, 0, RNum [3;2;0;0;0;1;3;2;7;0;0;1;4] [0;5] 0).
+Proof. vm_compute. reflexivity. Qed.
+
+(* 二百五十万: value 2500000 with room 5 = the scale of 十 plus that of 万 (this is why a malformed string such as 百万3万 is
+   still accepted with its natural value, see the observations above) *)
+Example ex_reference_room : r_parse gen_cfg [20108;30334;20116;21313;19975] = (true, 0, RNum [2;5;0;0;0;0;0] [] 5).
+Proof. vm_compute. reflexivity. Qed.
+
+(* a reachable state with a point and digits after it satisfies the invariant non-trivially *)
+Example ex_reachable_state :
+  exists p, p_feed gen_cfg (p_new gen_cfg) [49;50;46;53] = (true, p) /\ pt (tmp p) = Some 2%nat /\ sg (tmp p) = [1;2;5].
+Proof. eexists. split; [vm_compute; reflexivity | split; reflexivity]. Qed.
+
+(* grouped: "12,345,678" is well-formed; "12,34" and "0,123" and ",123" are not *)
+Example ex_groups :
+  groups_ok [1;2] [[3;4;5]; [6;7;8]] = true /\ groups_ok [1;2] [[3;4]] = false /\ groups_ok [0] [[1;2;3]] = false /\
+  groups_ok [] [[1;2;3]] = false /\ groups_ok [1] [[]; [1;2;3]] = false.
+Proof. vm_compute. repeat split. Qed.
